@@ -524,6 +524,7 @@ func isolationSeq(r *seq.Run, tier string) {
 // ---------- concurrent isolation (Engine S) ----------
 
 type cinst struct {
+	bigBase  bool // the logger given to NewHandler carries more than 500 bytes of context
 	baseCtx  bool // the requests' contexts descend from one server-wide context that already carries a logger
 	ctxProbe []string
 	nreq     int
@@ -547,9 +548,16 @@ func pick(names []string) []fh {
 	return out
 }
 
+func (c *cinst) appVal() string {
+	if c.bigBase {
+		return "base" + strings.Repeat("G", 600)
+	}
+	return "base"
+}
+
 func (c *cinst) Body() {
 	c.w = &lineW{}
-	c.base = zerolog.New(c.w).With().Str("app", "base").Logger()
+	c.base = zerolog.New(c.w).With().Str("app", c.appVal()).Logger()
 	hs := pick(c.hsel)
 	h := chain(c.base, hs, true, func(r *http.Request) string { return r.Header.Get("X-Tag") })
 	if len(c.hsel) == 1 && c.hsel[0] == "ACCESS" {
@@ -642,7 +650,7 @@ func (c *cinst) Check(res *mcrt.Result) []explore.Violation {
 		vs = append(vs, explore.Violation{Prop: "C18", Msg: f})
 		break
 	}
-	if len(c.probe) != 1 || c.probe[0] != "{\"level\":\"info\",\"app\":\"base\",\"message\":\"probe\"}\n" {
+	if len(c.probe) != 1 || c.probe[0] != "{\"level\":\"info\",\"app\":\""+c.appVal()+"\",\"message\":\"probe\"}\n" {
 		vs = append(vs, explore.Violation{Prop: "C18", Msg: fmt.Sprintf("the logger passed to NewHandler changed: probe %q", c.probe)})
 	}
 	if c.baseCtx && (len(c.ctxProbe) != 1 || c.ctxProbe[0] != "{\"level\":\"info\",\"app\":\"srv\",\"message\":\"ctxprobe\"}\n") {
@@ -663,7 +671,8 @@ func factory(name string) *explore.Scenario {
 	}
 	sel := strings.Split(parts[1], ",")
 	baseCtx := strings.HasSuffix(parts[0], "B")
-	return &explore.Scenario{Name: name, WriterProgress: true, New: func() explore.Instance { return &cinst{nreq: n, hsel: sel, baseCtx: baseCtx} },
+	bigBase := strings.HasSuffix(parts[0], "G")
+	return &explore.Scenario{Name: name, WriterProgress: true, New: func() explore.Instance { return &cinst{nreq: n, hsel: sel, baseCtx: baseCtx, bigBase: bigBase} },
 		Setup: func() { zerolog.SetGlobalLevel(zerolog.TraceLevel) }}
 }
 
@@ -727,7 +736,7 @@ func main() {
 	r.Count("proxy_histories", r.Evals)
 	isolationSeq(r, tier)
 	var plans []drv.Plan
-	scs := []string{"R2/ACCESS", "R2/URL,Method", "R2/RemoteAddr,UserAgent,RequestID", "R2/CustomHeader", "R3/URL", "R2/Host,Referer,Proto", "R3/Method,RequestID", "R2B/URL,Method", "R2B/ACCESS"}
+	scs := []string{"R2/ACCESS", "R2/URL,Method", "R2/RemoteAddr,UserAgent,RequestID", "R2/CustomHeader", "R3/URL", "R2/Host,Referer,Proto", "R3/Method,RequestID", "R2B/URL,Method", "R2B/ACCESS", "R2G/URL,Method", "R2G/UserAgent,Referer"}
 	if tier == "thorough" {
 		scs = append(scs, "R3/URL,Method,UserAgent", "R3/RemoteIP,HTTPVersion,HostTrim", "R2/Request,URL,Method")
 	}
